@@ -8,6 +8,7 @@ CONSTANTS
   RootOps = TRUE
   MaxTreeDepth = 9
   MaxNodes = 99
+  FlagSets = "all"
   Tokens <- GTokens
   MaxTok = 3
   ValidName <- GValid
